@@ -24,7 +24,10 @@ ASSUMPTIONS = [
     "Spec comparison of sizes at 1e-9 relative plus the effect of the 10-decimal printing of negative growth rates over the "
     "graph's time span",
 ]
-EXPLANATION = ("Stage 1 (no theorems yet): the Lean Model of to_ms is tied to the code by exact comparison of the emitted "
+EXPLANATION = ("Theorems toMs_rejects / toMs_accepts, toMs_structure, toMs_sizes, toMs_migrations, toMs_numbering and the refinement "
+               "toMs_sem (for EVERY valid ms-expressible graph the emitted command denotes, under the independent interpreter, the "
+               "demography of the graph with its ancestry proportions normalised; toMs_sem_partial for proportions summing to "
+               "exactly 1) over the Lean Model of to_ms; the Model is tied to the code by exact comparison of the emitted "
                "option list; the independent interpreter Spec.MsSem.msSem run on the code's own output is compared with "
                "graphSem of the graph (sizes, migration step functions, lineage movements, lifetimes, population "
                "numbering); graphs outside the ms-expressible class must raise.")
